@@ -355,6 +355,31 @@ func ruleGetTotal(c *Check, p *Program, rule string) {
 						}
 					}
 				}
+				if !ok {
+					// the code itself was tested: it is what lz4block.Index returned (0 for a size that has no code, and
+					// otherwise one of the codes Get handles) and it is known to be non-zero here
+					args := ci.Common().Args
+					code := stripConv(args[len(args)-1])
+					if call, isC := code.(*ssa.Call); isC && calleeIs(call, pkgBlock, "Index") {
+						idxFn := staticCallee(call)
+						codesOK := true
+						allInstrs(idxFn, func(in ssa.Instruction) {
+							if r, isR := in.(*ssa.Return); isR {
+								k, isK := constUint(r.Results[0])
+								if !isK || !(k == 0 || len(vset{{k, k}}.intersect(handled)) > 0) {
+									codesOK = false
+								}
+							}
+						})
+						for _, a := range atomsOfBlock(ci.Block()) {
+							neg := a
+							neg.Val = !a.Val
+							if z := atomSaysZero(neg); z != nil && stripConv(z) == code && codesOK {
+								ok = true
+							}
+						}
+					}
+				}
 				c.Cond(ok, rule, fmt.Sprintf("BlockSizeOption#validated#%d", n), p.InstrPos(ci), "BlockSizeOption stores a block-size code only after lz4block.IsValid accepted the size", "guarded by IsValid(size)", "BlockSizeIndexSet is not guarded by IsValid: an undefined size would make Get panic later")
 			}
 		}
